@@ -141,7 +141,8 @@ def readExactly : Nat → Source → Nat → Bytes → Bytes × Option Err × So
   | fuel + 1, src, k, acc =>
     if k == 0 then (acc, none, src) else
     let (b, e, src) := src.read k
-    match e with
+    if b.length ≥ k then (acc ++ b, none, src)       -- enough bytes: an error that came along is dropped
+    else match e with
     | none => readExactly fuel src (k - b.length) (acc ++ b)
     | some .eof => (acc ++ b, some (if (acc ++ b).isEmpty then .eof else .unexpectedEOF), src)
     | some err => (acc ++ b, some err, src)
